@@ -97,7 +97,9 @@ func runC05(rc *RunCtx) {
 	asciiEvery := []int{0, 2, 5}[t.Choose(3)]
 
 	// fields may be added in two stages with requests built in between (a builder is a reusable, growing description)
-	b := modbus.NewRequestBuilder("", 0)
+	// the builder's own defaults (server, unit) are for fields made through its helper methods; complete definitions
+	// added with AddAll carry their own and must keep them (unit id 0 is a definition like any other)
+	b := modbus.NewRequestBuilder([]string{"", "default-plc:502", "plc1"}[t.Choose(3)], []uint8{0, 9, 255, 1}[t.Choose(4)])
 	if stage := t.Choose(len(fields) + 1); stage > 0 && stage < len(fields) && t.Chance(1, 3) {
 		b.AddAll(fields[:stage])
 		if holding {
